@@ -208,6 +208,11 @@ def in_situ(ctx, conf):
 
 def run_shard(ctx):
     conf = TIERS[ctx.tier]
+    if ctx.shard == ctx.nshards - 1:
+        # every verdict taken while the repository's own tests run, checked by the passive validator monitor
+        from .. import repotests
+
+        repotests.run(ctx, "validator")
     if ctx.shard == 0:
         exact_cases(ctx)
         constructor_cases(ctx)
@@ -260,7 +265,7 @@ def inconclusive(merged, tier):
     c = merged["counters"]
     out = [f"monitor never observed {k}" for k in
            ("decisions_checked", "exact_boundary_cases", "silence_floor_cases", "constructor_cases",
-            "single_channel_selector_ignored_cases", "in_situ_verdicts", "hook_is_valid_calls") if c.get(k, 0) == 0]
+            "single_channel_selector_ignored_cases", "in_situ_verdicts", "hook_is_valid_calls", "repo_tests_validator_verdicts_checked") if c.get(k, 0) == 0]
     if c.get("monitor_errors", 0):
         out.append("the passive monitor itself raised (see notes)")
     if c.get("energy_values_observed", 0) == 0:
